@@ -43,6 +43,20 @@ func init() {
 	histChecks["C01"] = func(tier string) []*hist.Scenario {
 		return []*hist.Scenario{
 			{
+				// ordered delivery + maintenance: pruning an acknowledged (or expired)
+				// predecessor must leave its successors deliverable
+				ID: "C01/ordered+prune", Prop: "C01", Depth: d(tier, 5, 6), Drain: true,
+				Cfg: model.Cfg{Topics: []string{"T0"}, Subs: []model.SubCfg{
+					{Name: "S0", Topic: "T0", Ordered: true, Retention: 10 * time.Minute},
+				}},
+				Prelude: []model.Op{pubN("T0", "K1", "K1")},
+				Alphabet: []model.Op{
+					pull("S0", 1), pull("S0", 10), ack("S0", "oldest"), pub1("T0", "K1", 0),
+					tick("lease+"), tick("ret+"),
+					job("prune-completed-deliveries", 0, 100), job("prune-completed-deliveries", 0, 1), job("prune-expired-deliveries", 0, 100), job("prune-completed-messages", 0, 100),
+				},
+			},
+			{
 				ID: "C01/plain+filtered+prune", Prop: "C01", Depth: d(tier, 5, 7), Drain: true,
 				Cfg: model.Cfg{Topics: []string{"T0"}, Subs: []model.SubCfg{
 					{Name: "S0", Topic: "T0"},
@@ -450,6 +464,20 @@ func init() {
 			})
 		}
 		out = append(out,
+			&hist.Scenario{
+				// the policy is tightened (N lowered to 1) while a message has already been
+				// delivered more often than that: it is over the limit, however far
+				ID: "C06/policy-tightened", Prop: "C06", Depth: d(tier, 6, 7), Drain: true,
+				Cfg: model.Cfg{Topics: []string{"T0", "TD"}, Subs: []model.SubCfg{
+					{Name: "S0", Topic: "T0", DLTopic: "TD", MaxAttempts: 3},
+					{Name: "SD", Topic: "TD"},
+				}},
+				Prelude: []model.Op{pub1("T0", "", 1)},
+				Alphabet: []model.Op{
+					pull("S0", 10), modack("S0", "all", 0), nack("S0", "oldest"), tick("lease+"),
+					reconfig("S0", "dl:TD"), pull("SD", 10), sweep(),
+				},
+			},
 			&hist.Scenario{
 				ID: "C06/no-dl-subscriber+deleted-topic", Prop: "C06", Depth: d(tier, 6, 8), Drain: true,
 				Cfg: model.Cfg{Topics: []string{"T0", "TD"}, Subs: []model.SubCfg{
